@@ -1,4 +1,6 @@
-(* Finding C25/2: addLineToFile appends without checking that the file ends in
+(* FIXED in the repo by commit cbf4d81 (addLineToFile now starts a new line first); the model
+   follows the repaired code, so this refutation no longer compiles - kept as the record of the defect.
+   Finding C25/2: addLineToFile appends without checking that the file ends in
    a newline: the new line is glued to an unterminated last line. Here the old
    entry turns into garbage and the new peer is not allowed, with a nil error. *)
 From Coq Require Import String ZArith Bool List.
